@@ -644,7 +644,7 @@ Proof.
 Qed.
 
 Lemma print_cnf_render : forall n units cls,
-  print_cnf_b (n, units, cls) = render_dimacs_b [] n (map (fun u => [u]) units ++ cls).
+  print_cnf_b (n, false, units, cls) = render_dimacs_b [] n (map (fun u => [u]) units ++ cls).
 Proof.
   intros n units cls.
   assert (Hu : List.concat (map (fun u => print_Zl u ++ tok " 0" ++ [LF]) units)
@@ -670,24 +670,59 @@ Proof.
   rewrite <- !app_assoc. reflexivity.
 Qed.
 
-(* P = (NbVars, Units, Clauses) as solver.Problem holds them *)
-Definition wf_cnf_problem (P : Z * list lit * cnf) : Prop :=
-  let '(n, units, cls) := P in
-  0 <= n /\ (forall u, In u units -> u <> 0 /\ Z.abs u <= n) /\
-  (forall c, In c cls -> wf_lits n c).
+(* a trivially UNSAT problem: the single empty clause *)
+Lemma print_cnf_unsat : forall n units cls,
+  print_cnf_b (n, true, units, cls) = print_cnf_b (n, false, [], [[]]).
+Proof. intros n units cls. reflexivity. Qed.
 
-Theorem C18_cnf_b : forall n units cls, wf_cnf_problem (n, units, cls) ->
-  parse_dimacs_r (print_cnf_b (n, units, cls)) = POk (n, map (fun u => [u]) units ++ cls).
+(* P = (NbVars, Status == Unsat, Units, Clauses) as solver.Problem holds them *)
+Definition wf_cnf_problem (P : Z * bool * list lit * cnf) : Prop :=
+  let '(n, unsat, units, cls) := P in
+  0 <= n /\
+  (unsat = false ->
+   (forall u, In u units -> u <> 0 /\ Z.abs u <= n) /\ (forall c, In c cls -> wf_lits n c)).
+
+(* the clauses that are read back *)
+Definition cnf_problem_clauses (unsat : bool) (units : list lit) (cls : cnf) : cnf :=
+  if unsat then [[]] else map (fun u => [u]) units ++ cls.
+
+Theorem C18_cnf_b : forall n unsat units cls, wf_cnf_problem (n, unsat, units, cls) ->
+  parse_dimacs_r (print_cnf_b (n, unsat, units, cls))
+  = POk (n, cnf_problem_clauses unsat units cls).
 Proof.
-  intros n units cls [Hn [Hu Hc]]. rewrite print_cnf_render. apply C13_dimacs_b.
-  split; [exact Hn|]. intros c Hin. apply in_app_or in Hin. destruct Hin as [Hin|Hin].
-  - apply in_map_iff in Hin. destruct Hin as [u [<- Hin]]. intros l [<-|[]]. apply Hu. exact Hin.
-  - apply Hc. exact Hin.
+  intros n unsat units cls [Hn H]. destruct unsat.
+  - rewrite print_cnf_unsat, print_cnf_render. apply C13_dimacs_b.
+    split; [exact Hn|]. intros c [<-|[]] l [].
+  - destruct (H eq_refl) as [Hu Hc]. rewrite print_cnf_render. apply C13_dimacs_b.
+    split; [exact Hn|]. intros c Hin. apply in_app_or in Hin. destruct Hin as [Hin|Hin].
+    + apply in_map_iff in Hin. destruct Hin as [u [<- Hin]]. intros l [<-|[]]. apply Hu. exact Hin.
+    + apply Hc. exact Hin.
 Qed.
 
-Theorem C18_cnf : forall n units cls, wf_cnf_problem (n, units, cls) ->
-  parse_dimacs (print_cnf (n, units, cls)) = Some (n, map (fun u => [u]) units ++ cls).
+Theorem C18_cnf : forall n unsat units cls, wf_cnf_problem (n, unsat, units, cls) ->
+  parse_dimacs (print_cnf (n, unsat, units, cls))
+  = Some (n, cnf_problem_clauses unsat units cls).
 Proof.
-  intros n units cls H. unfold parse_dimacs, print_cnf.
+  intros n unsat units cls H. unfold parse_dimacs, print_cnf.
   rewrite list_ascii_of_string_of_list_ascii, C18_cnf_b by exact H. reflexivity.
+Qed.
+
+(* same models: none for a trivially UNSAT problem, otherwise those of the
+   units and of the clauses *)
+Lemma sat_cnf_problem_clauses : forall m unsat units cls,
+  sat_cnf m (cnf_problem_clauses unsat units cls)
+  = negb unsat && (forallb (lit_val m) units && sat_cnf m cls).
+Proof.
+  intros m unsat units cls. destruct unsat; [reflexivity|].
+  unfold cnf_problem_clauses, sat_cnf. rewrite forallb_app. cbn [negb andb]. f_equal.
+  induction units as [|u r IH]; [reflexivity|]. cbn [map forallb]. rewrite IH.
+  unfold sat_clause. cbn [existsb]. rewrite orb_false_r. reflexivity.
+Qed.
+
+Theorem C18_cnf_models : forall n unsat units cls, wf_cnf_problem (n, unsat, units, cls) ->
+  exists F', parse_dimacs (print_cnf (n, unsat, units, cls)) = Some (n, F') /\
+             forall m, sat_cnf m F' = negb unsat && (forallb (lit_val m) units && sat_cnf m cls).
+Proof.
+  intros n unsat units cls H. eexists. split; [apply C18_cnf; exact H|].
+  intros m. apply sat_cnf_problem_clauses.
 Qed.
